@@ -760,6 +760,23 @@ func check(id, tier string) int {
 					if more {
 						continue
 					}
+					// the batch runs every script in one process: state a run leaves behind
+					// (sync.Pool contents, package variables) can mask a counterexample, so each
+					// candidate of the label is tried once more alone in a fresh process
+					retried := false
+					for _, q := range pending {
+						if pendingGroup[q] != grp || retried {
+							continue
+						}
+						if res1, _, err1 := runNative(bu, []string{q}); err1 == nil {
+							if r1, ok1 := res1[q]; ok1 && confirms(pendingInfo[q], r1) {
+								p, rs, r, ok, retried = q, pendingInfo[q], r1, true, true
+							}
+						}
+					}
+					if retried {
+						goto confirmed
+					}
 					if !ok {
 						fmt.Printf("UNCONFIRMED property=%s harness=%s label=%s: no native result\n%s\n", id, rs.Entry, rs.Label, tail(out, 30))
 					} else {
@@ -768,6 +785,7 @@ func check(id, tier string) int {
 					unconfirmed++
 					continue
 				}
+			confirmed:
 				groupDone[grp] = true
 				validated++
 				var h *Harness
